@@ -2,21 +2,24 @@ import PsModel.Lemmas.C09World
 /-!
 # C09 – property theorems (triggers live exactly as long as their function and leave nothing behind)
 
-`cont` is the deviation flag of `State.notify_del`: `false` = the loop as coded today (`return` at the first name whose
-entity no longer lists the queue), `true` = the repaired loop (`continue`).  The full-strength statements are proved
-for `cont = true`; for the code as it is they hold on the fragment "every queue names each entity once"
-(`…_partial`) and fail outside it (`…_cex`, finding C09-F1 = DESIGN §6 #18).
+`State.notify_del` is modelled with a deviation flag: `delContinuesNow = true` is TODAY's code (since the `fix:` commit
+a7dbc5e of /repo the loop `continue`s), `delContinuesPreFix = false` is the loop before that commit (`return` at the
+first name whose entity no longer lists the queue – finding C09-F1 = DESIGN §6 #18, now fixed).  The headline theorems
+speak about today's code at full strength; the `C09_regress_…` theorems record what held and what failed for the
+pre-fix code, so that a re-introduction of the `return` is recognised for what it is.
 -/
 namespace PsModel.C09
 open PsModel.C09.Spec
 
 /-! ## `start ; stop = id` on the state subscription table -/
 
-/-- **FULL statement (repaired loop).**  Subscribing a fresh queue to any set of names and unsubscribing it again –
-the names iterated in *any* order, possibly a different one – leaves every entity's subscriber set as it was. -/
+/-- **Today's code, all iteration orders.**  Subscribing a fresh queue to any set of names and unsubscribing it again –
+the names iterated in *any* order, possibly a different one, any number of names per entity – leaves every entity's
+subscriber set as it was. -/
 theorem C09_start_stop_id (names names' : List Var) (hp : names'.Perm names) (q : Q) (t : StateTbl)
     (hfresh : ∀ e, q ∉ subsOf t e) (e : Ent) (q' : Q) :
-    q' ∈ subsOf (notifyDel true q names' (notifyAdd names q t)) e ↔ q' ∈ subsOf t e := by
+    q' ∈ subsOf (notifyDel delContinuesNow q names' (notifyAdd names q t)) e ↔ q' ∈ subsOf t e := by
+  show q' ∈ subsOf (notifyDel true q names' (notifyAdd names q t)) e ↔ _
   rw [mem_notifyDel_cont, mem_notifyAdd]
   have hperm : e ∈ entsOf names' ↔ e ∈ entsOf names := (entsOf_perm hp).mem_iff
   constructor
@@ -28,11 +31,12 @@ theorem C09_start_stop_id (names names' : List Var) (hp : names'.Perm names) (q 
     rintro ⟨rfl, _⟩
     exact hfresh e h
 
-/-- **The code as it is, partial.**  The same holds for today's `notify_del` when no two watched names belong to the
-same entity (so no `a` together with `a.old` or `a.attr`). -/
-theorem C09_start_stop_partial (names names' : List Var) (hp : names'.Perm names) (hnd : (entsOf names').Nodup)
-    (q : Q) (t : StateTbl) (hfresh : ∀ e, q ∉ subsOf t e) (e : Ent) (q' : Q) :
-    q' ∈ subsOf (notifyDel false q names' (notifyAdd names q t)) e ↔ q' ∈ subsOf t e := by
+/-- **Pre-fix code, the fragment on which it was clean.**  With the old `return` the same held only when no two watched
+names belong to the same entity (no `a` together with `a.old` or `a.attr`). -/
+theorem C09_regress_start_stop_prefix_fragment (names names' : List Var) (hp : names'.Perm names)
+    (hnd : (entsOf names').Nodup) (q : Q) (t : StateTbl) (hfresh : ∀ e, q ∉ subsOf t e) (e : Ent) (q' : Q) :
+    q' ∈ subsOf (notifyDel delContinuesPreFix q names' (notifyAdd names q t)) e ↔ q' ∈ subsOf t e := by
+  show q' ∈ subsOf (notifyDel false q names' (notifyAdd names q t)) e ↔ _
   have hperm : ∀ x, x ∈ entsOf names' ↔ x ∈ entsOf names := fun x => (entsOf_perm hp).mem_iff
   rw [mem_notifyDel_code _ _ _ hnd, mem_notifyAdd]
   · constructor
@@ -47,14 +51,15 @@ theorem C09_start_stop_partial (names names' : List Var) (hp : names'.Perm names
     rw [mem_notifyAdd]
     exact .inr ⟨rfl, (hperm x).mp hx⟩
 
-/-- **Counterexample (finding C09-F1).**  Watching `pyscript.a`, `pyscript.a.old` and `pyscript.b`, iterated in this
-order: after `notify_add ; notify_del` the queue is still subscribed to `pyscript.b` (the second name finds the queue
-already gone from `pyscript.a` and `return`s).  In the order `b, a, a.old` nothing leaks – the defect depends on the
-iteration order of a Python set. -/
-theorem C09_cex_two_names_one_entity :
-    subsOf (notifyDel false (7, 0) [["pyscript", "a"], ["pyscript", "a", "old"], ["pyscript", "b"]]
+/-- **Regression witness (C09-F1, fixed by a7dbc5e).**  Watching `pyscript.a`, `pyscript.a.old` and `pyscript.b`:
+the PRE-FIX loop, iterating in this order, left the queue subscribed to `pyscript.b` (and nothing in the order
+`b, a, a.old` – the defect depended on the iteration order of a Python set); TODAY's loop leaves nothing in either order. -/
+theorem C09_regress_two_names_one_entity :
+    subsOf (notifyDel delContinuesPreFix (7, 0) [["pyscript", "a"], ["pyscript", "a", "old"], ["pyscript", "b"]]
       (notifyAdd [["pyscript", "a"], ["pyscript", "a", "old"], ["pyscript", "b"]] (7, 0) [])) ["pyscript", "b"] = [(7, 0)] ∧
-    subsOf (notifyDel false (7, 0) [["pyscript", "b"], ["pyscript", "a"], ["pyscript", "a", "old"]]
+    subsOf (notifyDel delContinuesPreFix (7, 0) [["pyscript", "b"], ["pyscript", "a"], ["pyscript", "a", "old"]]
+      (notifyAdd [["pyscript", "a"], ["pyscript", "a", "old"], ["pyscript", "b"]] (7, 0) [])) ["pyscript", "b"] = [] ∧
+    subsOf (notifyDel delContinuesNow (7, 0) [["pyscript", "a"], ["pyscript", "a", "old"], ["pyscript", "b"]]
       (notifyAdd [["pyscript", "a"], ["pyscript", "a", "old"], ["pyscript", "b"]] (7, 0) [])) ["pyscript", "b"] = [] := by
   decide
 
@@ -92,74 +97,57 @@ theorem C09_listener_count_new (b : List (String × Nat)) (ty ty' : String) :
 
 /-! ## refinement over all operation sequences -/
 
-/-- **Refinement, FULL statement (repaired loop).**  After *any* sequence of define / redefine / `del` / rebind /
+/-- **Refinement, today's code, no side condition.**  After *any* sequence of define / redefine / `del` / rebind /
 container put / drop / context unload / unload-all operations, in either subsystem, under the ASSUMPTION that an
 unreferenced function object is finalised right after the operation (`sweep`):
 the state subscription table is exactly the union of the subscriptions of the started generations (`Spec.Tables`),
 the started generations are exactly the referenced ones (`Spec.Active`) – so no occurrence can reach a function
 that is no longer referenced – and their identifiers are pairwise distinct. -/
 theorem C09_refinement (sub : Sub) (ops : List Op) :
-    (∀ e q, q ∈ subsOf (run true sub ops).st e ↔ Tables sub (run true sub ops).started e q) ∧
-    (∀ g ∈ (run true sub ops).started, Active (run true sub ops) g.id) ∧
-    (∀ i, Active (run true sub ops) i → ∃ g ∈ (run true sub ops).started, g.id = i) ∧
-    ((run true sub ops).started.map (·.id)).Nodup := by
+    (∀ e q, q ∈ subsOf (run delContinuesNow sub ops).st e ↔ Tables sub (run delContinuesNow sub ops).started e q) ∧
+    (∀ g ∈ (run delContinuesNow sub ops).started, Active (run delContinuesNow sub ops) g.id) ∧
+    (∀ i, Active (run delContinuesNow sub ops) i → ∃ g ∈ (run delContinuesNow sub ops).started, g.id = i) ∧
+    ((run delContinuesNow sub ops).started.map (·.id)).Nodup := by
   have h := run_inv true sub ops emptyWorld (emptyWorld_inv true sub) (fun op _ => opGood_of_cont sub op)
   exact ⟨h.inv.tables, h.active, h.inv.live, h.inv.nodup⟩
 
-/-- **Refinement for the code as it is – partial.**  The same, provided every defined function names each entity
-once per queue (`OpGood false`). -/
-theorem C09_refinement_partial (sub : Sub) (ops : List Op) (hgood : ∀ op ∈ ops, OpGood false sub op) :
-    (∀ e q, q ∈ subsOf (run false sub ops).st e ↔ Tables sub (run false sub ops).started e q) ∧
-    (∀ g ∈ (run false sub ops).started, Active (run false sub ops) g.id) ∧
-    (∀ i, Active (run false sub ops) i → ∃ g ∈ (run false sub ops).started, g.id = i) := by
-  have h := run_inv false sub ops emptyWorld (emptyWorld_inv false sub) hgood
-  exact ⟨h.inv.tables, h.active, h.inv.live⟩
+/-- **Unload returns to the baseline (today's code, no side condition).**  Whatever happened before, after `unloadAll`
+nothing is started and no entity has a subscriber left. -/
+theorem C09_unload_baseline (sub : Sub) (ops : List Op) :
+    (run delContinuesNow sub (ops ++ [.unloadAll])).started = [] ∧
+      ∀ e, subsOf (run delContinuesNow sub (ops ++ [.unloadAll])).st e = [] :=
+  unload_baseline_aux true sub ops (fun op _ => opGood_of_cont sub op)
 
-/-- **Counterexample at the level of operations (finding C09-F1).**  Define a function watching `a`, `a.old`, `b`
-and delete it: no generation is started any more, yet `pyscript.b` still lists its queue – in both subsystems. -/
-theorem C09_refinement_cex :
-    (run false .legacy [.define "file.t" "f" [[["pyscript", "a"], ["pyscript", "a", "old"], ["pyscript", "b"]]] [] [] false false,
+/-- **Pre-fix code, the fragment on which refinement and unload-to-baseline held**: every defined function names each
+entity once per queue (`OpGood false`). -/
+theorem C09_regress_refinement_prefix_fragment (sub : Sub) (ops : List Op)
+    (hgood : ∀ op ∈ ops, OpGood delContinuesPreFix sub op) :
+    (∀ e q, q ∈ subsOf (run delContinuesPreFix sub ops).st e ↔ Tables sub (run delContinuesPreFix sub ops).started e q) ∧
+    (∀ g ∈ (run delContinuesPreFix sub ops).started, Active (run delContinuesPreFix sub ops) g.id) ∧
+    (∀ i, Active (run delContinuesPreFix sub ops) i → ∃ g ∈ (run delContinuesPreFix sub ops).started, g.id = i) ∧
+    ((run delContinuesPreFix sub (ops ++ [.unloadAll])).started = [] ∧
+      ∀ e, subsOf (run delContinuesPreFix sub (ops ++ [.unloadAll])).st e = []) := by
+  have h := run_inv false sub ops emptyWorld (emptyWorld_inv false sub) hgood
+  exact ⟨h.inv.tables, h.active, h.inv.live, unload_baseline_aux false sub ops hgood⟩
+
+/-- **Regression witness at the level of operations (C09-F1, fixed).**  Define a function watching `a`, `a.old`, `b`
+and delete it.  PRE-FIX: no generation is started any more, yet `pyscript.b` still lists its queue – in both
+subsystems.  TODAY: `pyscript.b` has no subscriber left. -/
+theorem C09_regress_refinement_prefix_leak :
+    (run delContinuesPreFix .legacy [.define "file.t" "f" [[["pyscript", "a"], ["pyscript", "a", "old"], ["pyscript", "b"]]] [] [] false false,
         .del "file.t" "f"]).started = [] ∧
-    subsOf (run false .legacy [.define "file.t" "f" [[["pyscript", "a"], ["pyscript", "a", "old"], ["pyscript", "b"]]] [] [] false false,
+    subsOf (run delContinuesPreFix .legacy [.define "file.t" "f" [[["pyscript", "a"], ["pyscript", "a", "old"], ["pyscript", "b"]]] [] [] false false,
         .del "file.t" "f"]).st ["pyscript", "b"] = [(0, 0)] ∧
-    subsOf (run false .new [.define "file.t" "f" [[["pyscript", "a"], ["pyscript", "a", "old"], ["pyscript", "b"]]] [] [] false false,
-        .del "file.t" "f"]).st ["pyscript", "b"] = [(0, 0)] := by
+    subsOf (run delContinuesPreFix .new [.define "file.t" "f" [[["pyscript", "a"], ["pyscript", "a", "old"], ["pyscript", "b"]]] [] [] false false,
+        .del "file.t" "f"]).st ["pyscript", "b"] = [(0, 0)] ∧
+    subsOf (run delContinuesNow .legacy [.define "file.t" "f" [[["pyscript", "a"], ["pyscript", "a", "old"], ["pyscript", "b"]]] [] [] false false,
+        .del "file.t" "f"]).st ["pyscript", "b"] = [] ∧
+    subsOf (run delContinuesNow .new [.define "file.t" "f" [[["pyscript", "a"], ["pyscript", "a", "old"], ["pyscript", "b"]]] [] [] false false,
+        .del "file.t" "f"]).st ["pyscript", "b"] = [] := by
   decide
 
-/-- **Unload returns to the baseline.**  Whatever happened before, after `unloadAll` nothing is started and no
-entity has a subscriber left (repaired loop: always; code as it is: on the fragment). -/
-theorem C09_unload_baseline (cont : Bool) (sub : Sub) (ops : List Op) (hgood : ∀ op ∈ ops, OpGood cont sub op) :
-    (run cont sub (ops ++ [.unloadAll])).started = [] ∧ ∀ e, subsOf (run cont sub (ops ++ [.unloadAll])).st e = [] := by
-  have h : StepInv cont sub (run cont sub (ops ++ [Op.unloadAll])) :=
-    run_inv cont sub (ops ++ [Op.unloadAll]) emptyWorld (emptyWorld_inv cont sub)
-    (by
-      intro op hop
-      rcases List.mem_append.mp hop with hop | hop
-      · exact hgood op hop
-      · simp only [List.mem_singleton] at hop; subst hop; trivial)
-  have hstarted : (run cont sub (ops ++ [.unloadAll])).started = [] := by
-    apply List.eq_nil_iff_forall_not_mem.mpr
-    intro g hg
-    have hact := h.active g hg
-    -- after `unloadAll` there are no references at all
-    have hpre : StepInv cont sub (run cont sub ops) := run_inv cont sub ops emptyWorld (emptyWorld_inv cont sub) hgood
-    have hrun : run cont sub (ops ++ [.unloadAll]) = step cont sub (run cont sub ops) .unloadAll := by
-      simp [run, List.foldl_append]
-    rw [hrun] at hact
-    obtain ⟨h1, g1⟩ := applyOp_inv hpre.inv hpre.good .unloadAll trivial
-    unfold step at hact
-    rw [refs_sweep h1 g1] at hact
-    simp [applyOp, refs] at hact
-  refine ⟨hstarted, ?_⟩
-  intro e
-  apply List.eq_nil_iff_forall_not_mem.mpr
-  intro q hq
-  obtain ⟨g, hg, _⟩ := (h.inv.tables e q).mp hq
-  rw [hstarted] at hg
-  simp at hg
-
 /-- non-vacuity: two functions, one redefined, one kept in a container after `del`; tables follow the survivors -/
-example : ((run false .legacy [.define "c" "f" [[["pyscript", "a"]]] ["ev"] [] false false,
+example : ((run delContinuesNow .legacy [.define "c" "f" [[["pyscript", "a"], ["pyscript", "a", "old"]]] ["ev"] [] false false,
       .define "c" "g" [[["pyscript", "b"]]] [] [] false false, .put 0 "c" "g", .del "c" "g",
       .define "c" "f" [[["pyscript", "c"]]] [] [] false false]).started.map (·.id)) = [1, 2] := by decide
 
